@@ -638,6 +638,10 @@ void TraverseSchema::preprocessInclude(const DOMElement* const elem) {
     fParser->setDoNamespaces(true);
     fParser->setUserEntityHandler(fEntityHandler);
     fParser->setUserErrorReporter(fErrorReporter);
+    // the schema document is an external resource of this parse: same entity and DTD policy
+    fParser->setDisableDefaultEntityResolution(fScanner->getDisableDefaultEntityResolution());
+    fParser->setLoadExternalDTD(fScanner->getLoadExternalDTD());
+    fParser->setSecurityManager(fScanner->getSecurityManager());
 
     // Should just issue warning if the schema is not found
     bool flag = srcToFill->getIssueFatalErrorIfNotFound();
@@ -852,6 +856,10 @@ void TraverseSchema::preprocessImport(const DOMElement* const elem) {
     fParser->setDoNamespaces(true);
     fParser->setUserEntityHandler(fEntityHandler);
     fParser->setUserErrorReporter(fErrorReporter);
+    // the schema document is an external resource of this parse: same entity and DTD policy
+    fParser->setDisableDefaultEntityResolution(fScanner->getDisableDefaultEntityResolution());
+    fParser->setLoadExternalDTD(fScanner->getLoadExternalDTD());
+    fParser->setSecurityManager(fScanner->getSecurityManager());
 
     // Should just issue warning if the schema is not found
     bool flag = srcToFill->getIssueFatalErrorIfNotFound();
@@ -8191,6 +8199,10 @@ bool TraverseSchema::openRedefinedSchema(const DOMElement* const redefineElem) {
     fParser->setDoNamespaces(true);
     fParser->setUserEntityHandler(fEntityHandler);
     fParser->setUserErrorReporter(fErrorReporter);
+    // the schema document is an external resource of this parse: same entity and DTD policy
+    fParser->setDisableDefaultEntityResolution(fScanner->getDisableDefaultEntityResolution());
+    fParser->setLoadExternalDTD(fScanner->getLoadExternalDTD());
+    fParser->setSecurityManager(fScanner->getSecurityManager());
 
     // Should just issue warning if the schema is not found
     bool flag = srcToFill->getIssueFatalErrorIfNotFound();
